@@ -17,7 +17,9 @@ pub fn gen_model(fam: &str, seed: u64, maxn: usize, tiny: bool) -> Model {
     };
     let rub = [RubMode::None, RubMode::None, RubMode::Exact, RubMode::Slack, RubMode::Noisy, RubMode::Noisy][r.gen_range(0..6)];
     let dom = [DomMode::None, DomMode::Exact, DomMode::None, DomMode::Keyed][r.gen_range(0..4)];
-    let n = if tiny { maxn - r.gen_range(0..3).min(maxn - 2) } else { maxn };
+    // now and then a degenerate size: no variable at all, one, two
+    let degenerate = r.gen_range(0..40);
+    let n = if degenerate < 3 { degenerate } else if tiny { maxn - r.gen_range(0..3).min(maxn - 2) } else { maxn };
     let b = r.gen_range(3..=5);
     let mm = r.gen_range(2..=3);
     match pick {
